@@ -5,8 +5,13 @@ Import ListNotations.
 Open Scope string_scope.
 
 
-(* UNTRANSLATABLE RSACrypto.get_signer: mutating call .setdefault() inside an expression *)
-Definition src2_get_signer (v_self : pyval) (v_sigalg : pyval) (v_sigkey : pyval) : pyval := PErr.
+(* saml2/sigver.py:RSACrypto.get_signer, lines 579-587 *)
+Definition src2_get_signer (v_self : pyval) (v_sigalg : pyval) (v_sigkey : pyval) : pyval :=
+  let v_signer := PErr in
+  (py_bindh (fun n_5 => (if exc_matches n_5 ["KeyError"]
+   then PNone
+   else (PExc n_5))) (p2_getitem (PObj [("http://www.w3.org/2000/09/xmldsig#rsa-sha1", (PObj [("__class__", PStr "RSASigner"); ("key", PNone); ("digest", (PStr "SHA1"))])); ("http://www.w3.org/2001/04/xmldsig-more#rsa-sha224", (PObj [("__class__", PStr "RSASigner"); ("key", PNone); ("digest", (PStr "SHA224"))])); ("http://www.w3.org/2001/04/xmldsig-more#rsa-sha256", (PObj [("__class__", PStr "RSASigner"); ("key", PNone); ("digest", (PStr "SHA256"))])); ("http://www.w3.org/2001/04/xmldsig-more#rsa-sha384", (PObj [("__class__", PStr "RSASigner"); ("key", PNone); ("digest", (PStr "SHA384"))])); ("http://www.w3.org/2001/04/xmldsig-more#rsa-sha512", (PObj [("__class__", PStr "RSASigner"); ("key", PNone); ("digest", (PStr "SHA512"))]))]) v_sigalg) (fun v_signer =>
+   (py_bind (p2_attr v_signer "digest") (fun a_1 => (py_bind (p2_or v_sigkey (p2_attr v_self "key")) (fun a_2 => (PObj [("__class__", PStr "RSASigner"); ("key", a_2); ("digest", a_1)]))))))).
 
 (* saml2/sigver.py:RSASigner.sign, lines 547-548 *)
 Definition src2_sign (key_sign : pyval -> pyval -> pyval -> pyval) (v_self : pyval) (v_msg : pyval) (v_key : pyval) : pyval :=
@@ -100,7 +105,7 @@ Definition src2_http_redirect_message (key_sign : pyval -> pyval -> pyval -> pyv
    | BErr => PErr
    end)).
 
-(* saml2/config.py:Config.getattr, lines 240-247 *)
+(* saml2/config.py:Config.getattr, lines 241-248 *)
 Definition src2_config_getattr (v_self : pyval) (v_attr : pyval) (v_context : pyval) : pyval :=
   (let k_3 := fun v_context =>
     (match p2_branch (p2_eq v_context (PStr "")) with
@@ -117,7 +122,70 @@ Definition src2_config_getattr (v_self : pyval) (v_attr : pyval) (v_context : py
    | BErr => PErr
    end)).
 
-(* saml2/sigver.py:security_context, lines 989-1062 *)
+(* saml2/config.py:Config._load, lines 344-361 *)
+Definition src2_config_load_module (path_split : pyval -> pyval) (sys_path : pyval) (path_insert : pyval -> pyval -> pyval) (import_module : pyval -> pyval -> pyval) (abspath : pyval -> pyval) (path_join : pyval -> pyval -> pyval) (isfile : pyval -> pyval) (samefile : pyval -> pyval -> pyval) (spec_from_file : pyval -> pyval -> pyval) (module_from_spec : pyval -> pyval) (exec_module : pyval -> pyval -> pyval) (v_self : pyval) (v_fil : pyval) : pyval :=
+  let v_head := PErr in
+  let v_tail := PErr in
+  let v_mod := PErr in
+  let v_wanted := PErr in
+  let v_found := PErr in
+  let v_spec := PErr in
+  (py_bind (py_bind v_fil (fun a_1 => (path_split a_1))) (fun a_2 =>
+   (match p2_unpack 2 a_2 with
+   | PList [v_head; v_tail] => (let k_20 := fun (_ : unit) =>
+    (py_bind (py_bind v_tail (fun a_3 => (import_module v_head a_3))) (fun v_mod =>
+    (py_bind (py_bind (py_bind (p2_or v_head (PStr ".")) (fun a_4 => (abspath a_4))) (fun a_5 => (py_bind (p2_fconcat [p2_str v_tail; PStr ".py"]) (fun a_6 => (path_join a_5 a_6))))) (fun v_wanted =>
+    (py_bind (py_bind v_mod (fun a_7 => (p2_getattr3 a_7 "file" PNone))) (fun v_found =>
+    (match p2_branch (p2_and v_found (p2_and (py_bind v_wanted (fun a_9 => (isfile a_9))) (p2_not (py_bind v_found (fun a_10 => (py_bind v_wanted (fun a_11 => (samefile a_10 a_11)))))))) with
+    | BTrue => (py_bind (py_bind v_tail (fun a_12 => (py_bind v_wanted (fun a_13 => (spec_from_file a_12 a_13))))) (fun v_spec =>
+    (py_bind (py_bind v_spec (fun a_14 => (module_from_spec a_14))) (fun v_mod =>
+    (py_bind (py_bind v_mod (fun a_15 => (exec_module v_spec a_15))) (fun _ =>
+    v_mod))))))
+    | BFalse => v_mod
+    | BExc n_16 => (PExc n_16)
+    | BErr => PErr
+    end))))))) in
+   (match p2_branch (p2_eq v_head (PStr "")) with
+   | BTrue => (match p2_branch (p2_ne (p2_getitem sys_path (PInt (0)%Z)) (PStr ".")) with
+   | BTrue => (py_bind (path_insert (PInt (0)%Z) (PStr ".")) (fun _ =>
+   (k_20 tt)))
+   | BFalse => (k_20 tt)
+   | BExc n_18 => (PExc n_18)
+   | BErr => PErr
+   end)
+   | BFalse => (py_bind (py_bind v_head (fun a_19 => (path_insert (PInt (0)%Z) a_19))) (fun _ =>
+   (k_20 tt)))
+   | BExc n_20 => (PExc n_20)
+   | BErr => PErr
+   end))
+   | PExc n_21 => (PExc n_21)
+   | _ => PErr
+   end))).
+
+(* saml2/config.py:Config.load_file, lines 363-377 *)
+Definition src2_config_load_file (load_module : pyval -> pyval -> pyval) (deepcopy : pyval -> pyval) (config_load : pyval -> pyval -> pyval) (v_self : pyval) (v_config_filename : pyval) (v_metadata_construction : pyval) : pyval :=
+  let v_warn_msg := PErr in
+  let v_mod := PErr in
+  (let k_7 := fun v_warn_msg =>
+    (let k_5 := fun v_config_filename =>
+     (py_bind (py_bind v_config_filename (fun a_1 => (load_module v_self a_1))) (fun v_mod =>
+     (py_bind (py_bind (p2_attr v_mod "CONFIG") (fun a_2 => (deepcopy a_2))) (fun a_3 => (config_load v_self a_3))))) in
+    (match p2_branch (p2_endswith v_config_filename (PStr ".py")) with
+    | BTrue => (py_bind (p2_slice v_config_filename PNone (PInt (-3)%Z)) (fun v_config_filename =>
+    (k_5 v_config_filename)))
+    | BFalse => (k_5 v_config_filename)
+    | BExc n_5 => (PExc n_5)
+    | BErr => PErr
+    end)) in
+   (match p2_branch (p2_is_not_none v_metadata_construction) with
+   | BTrue => (py_bind (PStr "The metadata_construction parameter for saml2.config.Config.load_file is deprecated and ignored; instead, initialize the Policy object setting the mds param.") (fun v_warn_msg =>
+   (k_7 v_warn_msg)))
+   | BFalse => (k_7 v_warn_msg)
+   | BExc n_7 => (PExc n_7)
+   | BErr => PErr
+   end)).
+
+(* saml2/sigver.py:security_context, lines 980-1053 *)
 Definition src2_security_context (import_key : pyval -> pyval) (read_cert : pyval -> pyval) (path_exists : pyval -> pyval) (find_xmlsec : pyval -> pyval) (xmlsec_backend : pyval -> pyval -> pyval) (v_conf : pyval) : pyval :=
   let v_metadata := PErr in
   let v_sec_backend := PErr in
